@@ -81,7 +81,7 @@ PROPS = {
                         'Kani cross-check bounded: number of segments N in 1..6, 9, 12 (quick), plus 17 (thorough)'],
     },
     'C03': {
-        'verus': [],
+        'verus': ['u_pweval'],
         'kani': {
             'quick': [{'set': 'c03', 'jobs': 8, 'timeout': 1500,
                        'harnesses': hs('c03_new_n', 'piecewise', [1, 2, 3, 4], 'segments N = {n}', EV_FNS[:1]) +
@@ -96,10 +96,17 @@ PROPS = {
         },
         'probe': False,
         'level': 'other',
-        'explanation': 'Representation invariant of PiecewiseEvaluator proved inductive with Kani on the real code: new() establishes it; from ANY state '
+        'explanation': 'Representation invariant of PiecewiseEvaluator proved inductive on the real bodies of new() and evaluate(): new() establishes it; from ANY state '
                        'satisfying it, ANY non-NaN query returns the piece direct evaluation selects (with argument x) and re-establishes it. '
-                       'Hence all histories of any length; bounded only in the number of segments.',
-        'assumptions': [PARAM, 'bounded: number of segments N <= 4 (quick) / N in 1..6, 8, 10 (thorough); history length is NOT bounded'],
+                       'Hence all histories of any length. Twice: (1) Verus, unit u_pweval, abstract piece type, ANY number of segments (forward loop with an inductive '
+                       'loop invariant; the backward iterator chain enumerate/rev/find_map is outside the Verus subset and is replaced by a call with a trusted contract); '
+                       '(2) Kani on the whole real function including that chain, bounded in the number of segments, plus 3-query histories through the public API.',
+        'assumptions': [PARAM, FM_ORD,
+                        'u_pweval: trusted contract `back_search` for the iterator chain `in_front.iter().enumerate().rev().find_map(..).unwrap_or(front)` of the backward branch '
+                        '(new tail = front[c..] with c-1 the largest index in in_front whose end <= x, c = 0 if none); that chain is exercised only by the bounded Kani step harnesses',
+                        'u_pweval: rule 11 (break-with-value desugaring) and `pub` fields on the template struct; assume_specification for <[T]>::split_last and f64::is_nan; vstd contracts for split_first, first, '
+                        'Option::{map, unwrap_or, expect}, slice range indexing, usize::saturating_sub',
+                        'bounded (Kani part): number of segments N <= 4 (quick) / N in 1..6, 8, 10 (thorough); history length is NOT bounded'],
     },
 }
 
@@ -421,7 +428,7 @@ def mp(name, module, what):
 
 
 PROPS['C16'] = {
-    'verus': ['u_pwsel', 'u_merge'],
+    'verus': ['u_pwsel', 'u_merge', 'u_pweval'],
     'kani': {
         'quick': [kset('c16',
                        hs('c02_direct_n', 'piecewise', [1, 2, 3, 4, 9], 'segments N = {n}; every f64 argument', PW_EVAL) +
@@ -443,7 +450,7 @@ PROPS['C16'] = {
     'probe': False,
     'level': 'other',
     'explanation': 'Panic-freedom is an obligation of every unit: Verus proves that the assert! in Piecewise::evaluate cannot fire and that indexing/unwrap are safe for '
-                   'every f64 argument and any number of segments, and that the merge loops of + and - cannot panic on well-formed operands of any size; Kani checks bounds, unwrap, overflow and assert! in the harnesses with UNCONSTRAINED f64 queries '
+                   'every f64 argument and any number of segments, and that the merge loops of + and - cannot panic on well-formed operands of any size, and (u_pweval) that PiecewiseEvaluator::new on a non-empty list and evaluate from any invariant-satisfying state cannot panic, for any number of segments and every f64 query, a NaN query leaving the state untouched (the backward iterator chain is behind a trusted contract there); Kani checks bounds, unwrap, overflow and assert! in the harnesses with UNCONSTRAINED f64 queries '
                    '(NaN, infinities) for direct evaluation, the stateful evaluator (inductive step from any invariant-satisfying state plus 3-query histories) and '
                    'evaluate_v. NaN clause: after any query, NaN included, the evaluator invariant still holds and every non-NaN query is answered like direct '
                    'evaluation. The documented rejections are the only should_panic harnesses.',
